@@ -56,6 +56,67 @@ type RunRecord struct {
 	WallUS     int64        `json:"wall_us"`
 }
 
+// AggRecord sums the runs of an explore worker that had nothing to report individually
+// (no violation, not a sample): one line every few hundred runs instead of one per run.
+type AggRecord struct {
+	Agg        bool           `json:"agg"`
+	Runs       int            `json:"runs"`
+	Steps      int64          `json:"steps"`
+	VirtualNS  int64          `json:"virtual_ns"`
+	VirtualMax int64          `json:"virtual_max"`
+	States     int64          `json:"states"`
+	WallUS     int64          `json:"wall_us"`
+	Flavors    map[string]int `json:"flavors"`
+	Worlds     map[string]int `json:"worlds"`
+	Reasons    map[string]int `json:"reasons"`
+	Faults     map[string]int `json:"faults"`
+	Yields     map[string]int `json:"yields"`
+	Parks      map[string]int `json:"parks"`
+	Probes     map[string]int `json:"probes"`
+	Ops        map[string]int `json:"ops"`
+	LockSites  map[string]int `json:"lock_sites"`
+	SigsNT     []string       `json:"sigs_nontrivial"` // canonical-log hashes of the non-trivial runs
+	SigsT      []string       `json:"sigs_trivial"`
+}
+
+func newAgg() *AggRecord {
+	return &AggRecord{Agg: true, Flavors: map[string]int{}, Worlds: map[string]int{}, Reasons: map[string]int{}, Faults: map[string]int{}, Yields: map[string]int{},
+		Parks: map[string]int{}, Probes: map[string]int{}, Ops: map[string]int{}, LockSites: map[string]int{}}
+}
+
+func addMap(dst, src map[string]int) {
+	for k, v := range src {
+		dst[k] += v
+	}
+}
+
+func (a *AggRecord) add(r *RunRecord) {
+	a.Runs++
+	a.Steps += int64(r.Steps)
+	a.VirtualNS += r.VirtualNS
+	if r.VirtualNS > a.VirtualMax {
+		a.VirtualMax = r.VirtualNS
+	}
+	a.States += int64(r.States)
+	a.WallUS += r.WallUS
+	a.Flavors[r.Flavor]++
+	a.Worlds[r.World]++
+	a.Reasons[r.Reason]++
+	addMap(a.Faults, r.Faults)
+	addMap(a.Yields, r.Yields)
+	addMap(a.Parks, r.Parks)
+	addMap(a.Probes, r.Probes)
+	addMap(a.Ops, r.Ops)
+	for k := range r.LockSites {
+		a.LockSites[k] = 1
+	}
+	if r.Steps >= 10 && r.Requests >= 3 {
+		a.SigsNT = append(a.SigsNT, r.Sig)
+	} else {
+		a.SigsT = append(a.SigsT, r.Sig)
+	}
+}
+
 func TestMain(m *testing.M) {
 	flag.Parse()
 	if *fMode == "" {
@@ -242,22 +303,8 @@ func TestWorker(t *testing.T) {
 			deadline = time.Now().Add(*fBudget)
 		}
 		samples := 0
-		for i := *fFrom; (*fTo == 0 || i < *fTo); i += *fStride {
-			if !deadline.IsZero() && time.Now().After(deadline) {
-				break
-			}
-			p := Generate(*fProp, *fTier, *fSeed, i)
-			if *fCur != "" {
-				os.WriteFile(*fCur, p.JSON(), 0o644)
-			}
-			rec := executePlan(t, p, false)
-			if len(rec.Violations) > 0 || samples < *fSamples {
-				rec.Plan = p
-				if len(rec.Violations) == 0 {
-					samples++
-				}
-			}
-			b, _ := json.Marshal(rec)
+		emit := func(v any) {
+			b, _ := json.Marshal(v)
 			if out != nil {
 				out.Write(append(b, '\n'))
 				out.Flush()
@@ -265,7 +312,44 @@ func TestWorker(t *testing.T) {
 				fmt.Println(string(b))
 			}
 		}
+		// the index of the plan in progress, rewritten in place (the plan itself is a pure
+		// function of property, tier, seed and index): no file is created per run
+		var curF *os.File
 		if *fCur != "" {
+			curF = mustCreate(*fCur)
+		}
+		agg := newAgg()
+		perRun := os.Getenv("VERIF_PER_RUN") == "1"
+		for i := *fFrom; (*fTo == 0 || i < *fTo); i += *fStride {
+			if !deadline.IsZero() && time.Now().After(deadline) {
+				break
+			}
+			p := Generate(*fProp, *fTier, *fSeed, i)
+			if curF != nil {
+				curF.WriteAt([]byte(fmt.Sprintf("{\"run\":%12d}\n", i)), 0)
+			}
+			rec := executePlan(t, p, false)
+			if len(rec.Violations) > 0 || samples < *fSamples || perRun {
+				if len(rec.Violations) > 0 || samples < *fSamples {
+					rec.Plan = p
+				}
+				if len(rec.Violations) == 0 {
+					samples++
+				}
+				emit(rec)
+				continue
+			}
+			agg.add(rec)
+			if agg.Runs >= 500 {
+				emit(agg)
+				agg = newAgg()
+			}
+		}
+		if agg.Runs > 0 {
+			emit(agg)
+		}
+		if curF != nil {
+			curF.Close()
 			os.Remove(*fCur)
 		}
 	}
